@@ -60,34 +60,36 @@ Record st : Type := mkSt {
   k_fk : bool;
   k_pending : nat;
   k_forupd : nat;
+  k_saved : bool;
   ncall : nat;
   trace : list event;
   bad : list badness
 }.
 
-Definition set_lock (v : bool) (s : st) : st := mkSt v (mine s) (p_has s) (p_id s) (p_fk s) (p_cs s) (p_txn s) (p_pidset s) (out s) (next s) (closed s) (sess s) (k_reg s) (k_has s) (k_id s) (k_intxn s) (k_imm s) (k_fk s) (k_pending s) (k_forupd s) (ncall s) (trace s) (bad s).
-Definition set_mine (v : bool) (s : st) : st := mkSt (lock s) v (p_has s) (p_id s) (p_fk s) (p_cs s) (p_txn s) (p_pidset s) (out s) (next s) (closed s) (sess s) (k_reg s) (k_has s) (k_id s) (k_intxn s) (k_imm s) (k_fk s) (k_pending s) (k_forupd s) (ncall s) (trace s) (bad s).
-Definition set_p_has (v : bool) (s : st) : st := mkSt (lock s) (mine s) v (p_id s) (p_fk s) (p_cs s) (p_txn s) (p_pidset s) (out s) (next s) (closed s) (sess s) (k_reg s) (k_has s) (k_id s) (k_intxn s) (k_imm s) (k_fk s) (k_pending s) (k_forupd s) (ncall s) (trace s) (bad s).
-Definition set_p_id (v : nat) (s : st) : st := mkSt (lock s) (mine s) (p_has s) v (p_fk s) (p_cs s) (p_txn s) (p_pidset s) (out s) (next s) (closed s) (sess s) (k_reg s) (k_has s) (k_id s) (k_intxn s) (k_imm s) (k_fk s) (k_pending s) (k_forupd s) (ncall s) (trace s) (bad s).
-Definition set_p_fk (v : bool) (s : st) : st := mkSt (lock s) (mine s) (p_has s) (p_id s) v (p_cs s) (p_txn s) (p_pidset s) (out s) (next s) (closed s) (sess s) (k_reg s) (k_has s) (k_id s) (k_intxn s) (k_imm s) (k_fk s) (k_pending s) (k_forupd s) (ncall s) (trace s) (bad s).
-Definition set_p_cs (v : bool) (s : st) : st := mkSt (lock s) (mine s) (p_has s) (p_id s) (p_fk s) v (p_txn s) (p_pidset s) (out s) (next s) (closed s) (sess s) (k_reg s) (k_has s) (k_id s) (k_intxn s) (k_imm s) (k_fk s) (k_pending s) (k_forupd s) (ncall s) (trace s) (bad s).
-Definition set_p_txn (v : bool) (s : st) : st := mkSt (lock s) (mine s) (p_has s) (p_id s) (p_fk s) (p_cs s) v (p_pidset s) (out s) (next s) (closed s) (sess s) (k_reg s) (k_has s) (k_id s) (k_intxn s) (k_imm s) (k_fk s) (k_pending s) (k_forupd s) (ncall s) (trace s) (bad s).
-Definition set_p_pidset (v : bool) (s : st) : st := mkSt (lock s) (mine s) (p_has s) (p_id s) (p_fk s) (p_cs s) (p_txn s) v (out s) (next s) (closed s) (sess s) (k_reg s) (k_has s) (k_id s) (k_intxn s) (k_imm s) (k_fk s) (k_pending s) (k_forupd s) (ncall s) (trace s) (bad s).
-Definition set_out (v : bool) (s : st) : st := mkSt (lock s) (mine s) (p_has s) (p_id s) (p_fk s) (p_cs s) (p_txn s) (p_pidset s) v (next s) (closed s) (sess s) (k_reg s) (k_has s) (k_id s) (k_intxn s) (k_imm s) (k_fk s) (k_pending s) (k_forupd s) (ncall s) (trace s) (bad s).
-Definition set_next (v : nat) (s : st) : st := mkSt (lock s) (mine s) (p_has s) (p_id s) (p_fk s) (p_cs s) (p_txn s) (p_pidset s) (out s) v (closed s) (sess s) (k_reg s) (k_has s) (k_id s) (k_intxn s) (k_imm s) (k_fk s) (k_pending s) (k_forupd s) (ncall s) (trace s) (bad s).
-Definition set_closed (v : list nat) (s : st) : st := mkSt (lock s) (mine s) (p_has s) (p_id s) (p_fk s) (p_cs s) (p_txn s) (p_pidset s) (out s) (next s) v (sess s) (k_reg s) (k_has s) (k_id s) (k_intxn s) (k_imm s) (k_fk s) (k_pending s) (k_forupd s) (ncall s) (trace s) (bad s).
-Definition set_sess (v : shape) (s : st) : st := mkSt (lock s) (mine s) (p_has s) (p_id s) (p_fk s) (p_cs s) (p_txn s) (p_pidset s) (out s) (next s) (closed s) v (k_reg s) (k_has s) (k_id s) (k_intxn s) (k_imm s) (k_fk s) (k_pending s) (k_forupd s) (ncall s) (trace s) (bad s).
-Definition set_k_reg (v : bool) (s : st) : st := mkSt (lock s) (mine s) (p_has s) (p_id s) (p_fk s) (p_cs s) (p_txn s) (p_pidset s) (out s) (next s) (closed s) (sess s) v (k_has s) (k_id s) (k_intxn s) (k_imm s) (k_fk s) (k_pending s) (k_forupd s) (ncall s) (trace s) (bad s).
-Definition set_k_has (v : bool) (s : st) : st := mkSt (lock s) (mine s) (p_has s) (p_id s) (p_fk s) (p_cs s) (p_txn s) (p_pidset s) (out s) (next s) (closed s) (sess s) (k_reg s) v (k_id s) (k_intxn s) (k_imm s) (k_fk s) (k_pending s) (k_forupd s) (ncall s) (trace s) (bad s).
-Definition set_k_id (v : nat) (s : st) : st := mkSt (lock s) (mine s) (p_has s) (p_id s) (p_fk s) (p_cs s) (p_txn s) (p_pidset s) (out s) (next s) (closed s) (sess s) (k_reg s) (k_has s) v (k_intxn s) (k_imm s) (k_fk s) (k_pending s) (k_forupd s) (ncall s) (trace s) (bad s).
-Definition set_k_intxn (v : bool) (s : st) : st := mkSt (lock s) (mine s) (p_has s) (p_id s) (p_fk s) (p_cs s) (p_txn s) (p_pidset s) (out s) (next s) (closed s) (sess s) (k_reg s) (k_has s) (k_id s) v (k_imm s) (k_fk s) (k_pending s) (k_forupd s) (ncall s) (trace s) (bad s).
-Definition set_k_imm (v : bool) (s : st) : st := mkSt (lock s) (mine s) (p_has s) (p_id s) (p_fk s) (p_cs s) (p_txn s) (p_pidset s) (out s) (next s) (closed s) (sess s) (k_reg s) (k_has s) (k_id s) (k_intxn s) v (k_fk s) (k_pending s) (k_forupd s) (ncall s) (trace s) (bad s).
-Definition set_k_fk (v : bool) (s : st) : st := mkSt (lock s) (mine s) (p_has s) (p_id s) (p_fk s) (p_cs s) (p_txn s) (p_pidset s) (out s) (next s) (closed s) (sess s) (k_reg s) (k_has s) (k_id s) (k_intxn s) (k_imm s) v (k_pending s) (k_forupd s) (ncall s) (trace s) (bad s).
-Definition set_k_pending (v : nat) (s : st) : st := mkSt (lock s) (mine s) (p_has s) (p_id s) (p_fk s) (p_cs s) (p_txn s) (p_pidset s) (out s) (next s) (closed s) (sess s) (k_reg s) (k_has s) (k_id s) (k_intxn s) (k_imm s) (k_fk s) v (k_forupd s) (ncall s) (trace s) (bad s).
-Definition set_k_forupd (v : nat) (s : st) : st := mkSt (lock s) (mine s) (p_has s) (p_id s) (p_fk s) (p_cs s) (p_txn s) (p_pidset s) (out s) (next s) (closed s) (sess s) (k_reg s) (k_has s) (k_id s) (k_intxn s) (k_imm s) (k_fk s) (k_pending s) v (ncall s) (trace s) (bad s).
-Definition set_ncall (v : nat) (s : st) : st := mkSt (lock s) (mine s) (p_has s) (p_id s) (p_fk s) (p_cs s) (p_txn s) (p_pidset s) (out s) (next s) (closed s) (sess s) (k_reg s) (k_has s) (k_id s) (k_intxn s) (k_imm s) (k_fk s) (k_pending s) (k_forupd s) v (trace s) (bad s).
-Definition set_trace (v : list event) (s : st) : st := mkSt (lock s) (mine s) (p_has s) (p_id s) (p_fk s) (p_cs s) (p_txn s) (p_pidset s) (out s) (next s) (closed s) (sess s) (k_reg s) (k_has s) (k_id s) (k_intxn s) (k_imm s) (k_fk s) (k_pending s) (k_forupd s) (ncall s) v (bad s).
-Definition set_bad (v : list badness) (s : st) : st := mkSt (lock s) (mine s) (p_has s) (p_id s) (p_fk s) (p_cs s) (p_txn s) (p_pidset s) (out s) (next s) (closed s) (sess s) (k_reg s) (k_has s) (k_id s) (k_intxn s) (k_imm s) (k_fk s) (k_pending s) (k_forupd s) (ncall s) (trace s) v.
+Definition set_lock (v : bool) (s : st) : st := mkSt v (mine s) (p_has s) (p_id s) (p_fk s) (p_cs s) (p_txn s) (p_pidset s) (out s) (next s) (closed s) (sess s) (k_reg s) (k_has s) (k_id s) (k_intxn s) (k_imm s) (k_fk s) (k_pending s) (k_forupd s) (k_saved s) (ncall s) (trace s) (bad s).
+Definition set_mine (v : bool) (s : st) : st := mkSt (lock s) v (p_has s) (p_id s) (p_fk s) (p_cs s) (p_txn s) (p_pidset s) (out s) (next s) (closed s) (sess s) (k_reg s) (k_has s) (k_id s) (k_intxn s) (k_imm s) (k_fk s) (k_pending s) (k_forupd s) (k_saved s) (ncall s) (trace s) (bad s).
+Definition set_p_has (v : bool) (s : st) : st := mkSt (lock s) (mine s) v (p_id s) (p_fk s) (p_cs s) (p_txn s) (p_pidset s) (out s) (next s) (closed s) (sess s) (k_reg s) (k_has s) (k_id s) (k_intxn s) (k_imm s) (k_fk s) (k_pending s) (k_forupd s) (k_saved s) (ncall s) (trace s) (bad s).
+Definition set_p_id (v : nat) (s : st) : st := mkSt (lock s) (mine s) (p_has s) v (p_fk s) (p_cs s) (p_txn s) (p_pidset s) (out s) (next s) (closed s) (sess s) (k_reg s) (k_has s) (k_id s) (k_intxn s) (k_imm s) (k_fk s) (k_pending s) (k_forupd s) (k_saved s) (ncall s) (trace s) (bad s).
+Definition set_p_fk (v : bool) (s : st) : st := mkSt (lock s) (mine s) (p_has s) (p_id s) v (p_cs s) (p_txn s) (p_pidset s) (out s) (next s) (closed s) (sess s) (k_reg s) (k_has s) (k_id s) (k_intxn s) (k_imm s) (k_fk s) (k_pending s) (k_forupd s) (k_saved s) (ncall s) (trace s) (bad s).
+Definition set_p_cs (v : bool) (s : st) : st := mkSt (lock s) (mine s) (p_has s) (p_id s) (p_fk s) v (p_txn s) (p_pidset s) (out s) (next s) (closed s) (sess s) (k_reg s) (k_has s) (k_id s) (k_intxn s) (k_imm s) (k_fk s) (k_pending s) (k_forupd s) (k_saved s) (ncall s) (trace s) (bad s).
+Definition set_p_txn (v : bool) (s : st) : st := mkSt (lock s) (mine s) (p_has s) (p_id s) (p_fk s) (p_cs s) v (p_pidset s) (out s) (next s) (closed s) (sess s) (k_reg s) (k_has s) (k_id s) (k_intxn s) (k_imm s) (k_fk s) (k_pending s) (k_forupd s) (k_saved s) (ncall s) (trace s) (bad s).
+Definition set_p_pidset (v : bool) (s : st) : st := mkSt (lock s) (mine s) (p_has s) (p_id s) (p_fk s) (p_cs s) (p_txn s) v (out s) (next s) (closed s) (sess s) (k_reg s) (k_has s) (k_id s) (k_intxn s) (k_imm s) (k_fk s) (k_pending s) (k_forupd s) (k_saved s) (ncall s) (trace s) (bad s).
+Definition set_out (v : bool) (s : st) : st := mkSt (lock s) (mine s) (p_has s) (p_id s) (p_fk s) (p_cs s) (p_txn s) (p_pidset s) v (next s) (closed s) (sess s) (k_reg s) (k_has s) (k_id s) (k_intxn s) (k_imm s) (k_fk s) (k_pending s) (k_forupd s) (k_saved s) (ncall s) (trace s) (bad s).
+Definition set_next (v : nat) (s : st) : st := mkSt (lock s) (mine s) (p_has s) (p_id s) (p_fk s) (p_cs s) (p_txn s) (p_pidset s) (out s) v (closed s) (sess s) (k_reg s) (k_has s) (k_id s) (k_intxn s) (k_imm s) (k_fk s) (k_pending s) (k_forupd s) (k_saved s) (ncall s) (trace s) (bad s).
+Definition set_closed (v : list nat) (s : st) : st := mkSt (lock s) (mine s) (p_has s) (p_id s) (p_fk s) (p_cs s) (p_txn s) (p_pidset s) (out s) (next s) v (sess s) (k_reg s) (k_has s) (k_id s) (k_intxn s) (k_imm s) (k_fk s) (k_pending s) (k_forupd s) (k_saved s) (ncall s) (trace s) (bad s).
+Definition set_sess (v : shape) (s : st) : st := mkSt (lock s) (mine s) (p_has s) (p_id s) (p_fk s) (p_cs s) (p_txn s) (p_pidset s) (out s) (next s) (closed s) v (k_reg s) (k_has s) (k_id s) (k_intxn s) (k_imm s) (k_fk s) (k_pending s) (k_forupd s) (k_saved s) (ncall s) (trace s) (bad s).
+Definition set_k_reg (v : bool) (s : st) : st := mkSt (lock s) (mine s) (p_has s) (p_id s) (p_fk s) (p_cs s) (p_txn s) (p_pidset s) (out s) (next s) (closed s) (sess s) v (k_has s) (k_id s) (k_intxn s) (k_imm s) (k_fk s) (k_pending s) (k_forupd s) (k_saved s) (ncall s) (trace s) (bad s).
+Definition set_k_has (v : bool) (s : st) : st := mkSt (lock s) (mine s) (p_has s) (p_id s) (p_fk s) (p_cs s) (p_txn s) (p_pidset s) (out s) (next s) (closed s) (sess s) (k_reg s) v (k_id s) (k_intxn s) (k_imm s) (k_fk s) (k_pending s) (k_forupd s) (k_saved s) (ncall s) (trace s) (bad s).
+Definition set_k_id (v : nat) (s : st) : st := mkSt (lock s) (mine s) (p_has s) (p_id s) (p_fk s) (p_cs s) (p_txn s) (p_pidset s) (out s) (next s) (closed s) (sess s) (k_reg s) (k_has s) v (k_intxn s) (k_imm s) (k_fk s) (k_pending s) (k_forupd s) (k_saved s) (ncall s) (trace s) (bad s).
+Definition set_k_intxn (v : bool) (s : st) : st := mkSt (lock s) (mine s) (p_has s) (p_id s) (p_fk s) (p_cs s) (p_txn s) (p_pidset s) (out s) (next s) (closed s) (sess s) (k_reg s) (k_has s) (k_id s) v (k_imm s) (k_fk s) (k_pending s) (k_forupd s) (k_saved s) (ncall s) (trace s) (bad s).
+Definition set_k_imm (v : bool) (s : st) : st := mkSt (lock s) (mine s) (p_has s) (p_id s) (p_fk s) (p_cs s) (p_txn s) (p_pidset s) (out s) (next s) (closed s) (sess s) (k_reg s) (k_has s) (k_id s) (k_intxn s) v (k_fk s) (k_pending s) (k_forupd s) (k_saved s) (ncall s) (trace s) (bad s).
+Definition set_k_fk (v : bool) (s : st) : st := mkSt (lock s) (mine s) (p_has s) (p_id s) (p_fk s) (p_cs s) (p_txn s) (p_pidset s) (out s) (next s) (closed s) (sess s) (k_reg s) (k_has s) (k_id s) (k_intxn s) (k_imm s) v (k_pending s) (k_forupd s) (k_saved s) (ncall s) (trace s) (bad s).
+Definition set_k_pending (v : nat) (s : st) : st := mkSt (lock s) (mine s) (p_has s) (p_id s) (p_fk s) (p_cs s) (p_txn s) (p_pidset s) (out s) (next s) (closed s) (sess s) (k_reg s) (k_has s) (k_id s) (k_intxn s) (k_imm s) (k_fk s) v (k_forupd s) (k_saved s) (ncall s) (trace s) (bad s).
+Definition set_k_forupd (v : nat) (s : st) : st := mkSt (lock s) (mine s) (p_has s) (p_id s) (p_fk s) (p_cs s) (p_txn s) (p_pidset s) (out s) (next s) (closed s) (sess s) (k_reg s) (k_has s) (k_id s) (k_intxn s) (k_imm s) (k_fk s) (k_pending s) v (k_saved s) (ncall s) (trace s) (bad s).
+Definition set_k_saved (v : bool) (s : st) : st := mkSt (lock s) (mine s) (p_has s) (p_id s) (p_fk s) (p_cs s) (p_txn s) (p_pidset s) (out s) (next s) (closed s) (sess s) (k_reg s) (k_has s) (k_id s) (k_intxn s) (k_imm s) (k_fk s) (k_pending s) (k_forupd s) v (ncall s) (trace s) (bad s).
+Definition set_ncall (v : nat) (s : st) : st := mkSt (lock s) (mine s) (p_has s) (p_id s) (p_fk s) (p_cs s) (p_txn s) (p_pidset s) (out s) (next s) (closed s) (sess s) (k_reg s) (k_has s) (k_id s) (k_intxn s) (k_imm s) (k_fk s) (k_pending s) (k_forupd s) (k_saved s) v (trace s) (bad s).
+Definition set_trace (v : list event) (s : st) : st := mkSt (lock s) (mine s) (p_has s) (p_id s) (p_fk s) (p_cs s) (p_txn s) (p_pidset s) (out s) (next s) (closed s) (sess s) (k_reg s) (k_has s) (k_id s) (k_intxn s) (k_imm s) (k_fk s) (k_pending s) (k_forupd s) (k_saved s) (ncall s) v (bad s).
+Definition set_bad (v : list badness) (s : st) : st := mkSt (lock s) (mine s) (p_has s) (p_id s) (p_fk s) (p_cs s) (p_txn s) (p_pidset s) (out s) (next s) (closed s) (sess s) (k_reg s) (k_has s) (k_id s) (k_intxn s) (k_imm s) (k_fk s) (k_pending s) (k_forupd s) (k_saved s) (ncall s) (trace s) v.
 
 Definition log (k : call) (id : nat) (ok : bool) (txn : bool) (s : st) : st :=
   set_ncall (S (ncall s)) (set_trace (Ev k id ok (lock s) txn (mine s) (k_pending s) :: trace s) s).
@@ -214,7 +216,7 @@ Definition prov_release (id : nat) : M := fun s =>
 Definition get_cache : M := fun s =>
   if k_reg s then (Ok, s)
   else (Ok, set_k_reg true (set_k_has false (set_k_intxn false (set_k_imm (shape_imm (sess s))
-             (set_k_fk false (set_k_pending 0 (set_k_forupd 0 s))))))).
+             (set_k_fk false (set_k_pending 0 (set_k_forupd 0 (set_k_saved false s)))))))).
 
 Definition cache_connect : M :=
   (fun s => assert_ (negb (k_has s)) s) ;;
@@ -241,16 +243,20 @@ Definition exec_with (prepare : M) (start : bool) (q : stmt) : M :=
 
 Definition wrap_orm (e : exn) : exn := match e with EDb => EUnexp | _ => e end.   (* _save_created_: DatabaseError -> UnexpectedError *)
 
-(* the saving loop of SessionCache.flush: one INSERT/UPDATE/DELETE per pending object *)
+(* the saving loop of SessionCache.flush: one INSERT/UPDATE/DELETE per pending object; a saved object is appended to
+   cache.saved_objects (k_saved: the list is not empty) until call_after_save_hooks() empties it at the end of the loop *)
+Definition flush_mark (s : st) : st := set_k_saved true (set_k_pending (pred (k_pending s)) s).
 Fixpoint flush_loop (k : nat) : M :=
   match k with
-  | O => ret
+  | O => upd (set_k_saved false)
   | S k' => try_except (exec_with prepare_nf true SWrite) (fun e => raise (wrap_orm e)) ;;
-            upd (fun s => set_k_pending (pred (k_pending s)) s) ;;
+            upd flush_mark ;;
             flush_loop k'
   end.
 
+(* SessionCache.flush: `assert not cache.saved_objects` fails after an earlier flush that died half way and was caught *)
 Definition cache_flush : M := fun s =>
+  if k_saved s then (Err EAssert, s) else
   let prev := k_imm s in
   (upd (set_k_imm true) ;;
    try_finally (fun s1 => flush_loop (k_pending s1) s1)
@@ -362,8 +368,8 @@ End WithOracle.
 
 (* initial states: a thread that never connected / the connection made by Database.bind() sits in the pool /
    the thread connected before and disconnected (pool.pid exists) *)
-Definition st_empty : st := mkSt false false false 0 false false false false false 0 [] ShOpt false false 0 false false false 0 0 0 [] [].
-Definition st_pooled : st := mkSt false false true 0 true true false true false 1 [] ShOpt false false 0 false false false 0 0 0 [] [].
+Definition st_empty : st := mkSt false false false 0 false false false false false 0 [] ShOpt false false 0 false false false 0 0 false 0 [] [].
+Definition st_pooled : st := mkSt false false true 0 true true false true false 1 [] ShOpt false false 0 false false false 0 0 false 0 [] [].
 
 Definition st_disconnected : st := set_p_pidset true st_empty.
 
